@@ -586,10 +586,17 @@ func (e *CEnv) call(n *ECall) *CV {
 		return &CV{T: A(unbox, x.T), Type: t, Sort: ft.sortOf(t)}
 	case "box":
 		x := e.eval(n.Args[0])
-		if x.Type == nil {
-			e.fail("box needs a Go-typed value")
+		t := x.Type
+		if len(n.Args) == 2 {
+			t = e.typeExpr(n.Args[1])
+			if x.Sort != ft.sortOf(t) {
+				e.fail("box: value of sort %s is not a %s", x.Sort, t)
+			}
 		}
-		box, _ := ft.e.sorts.Box(x.Type)
+		if t == nil {
+			e.fail("box needs a Go-typed value (or a type as second argument)")
+		}
+		box, _ := ft.e.sorts.Box(t)
 		return &CV{T: A(box, x.T), Sort: "Iface"}
 	}
 	// spec function
@@ -625,6 +632,9 @@ func (e *CEnv) typeExpr(x Expr) types.Type {
 	case *ECall:
 		if n.Fn == "ptr" && len(n.Args) == 1 {
 			return types.NewPointer(e.typeExpr(n.Args[0]))
+		}
+		if n.Fn == "slice" && len(n.Args) == 1 {
+			return types.NewSlice(e.typeExpr(n.Args[0]))
 		}
 	case *ESel:
 		p := e.eval(n.X)
